@@ -1,3 +1,124 @@
+(* C09/Props.v — property theorems only.  Each is closed by [exact] of a lemma from Lemmas.v and
+   followed by Print Assumptions (must print "Closed under the global context").
+
+   Property C09: for any history of colour commands, fades and removals under any keys and
+   priorities, the light's logical colour is that of its highest-priority entry, with running
+   fades interpolated between their endpoints and never outside them.  Once all fades have
+   finished, the brightness last commanded to every hardware channel equals that logical colour.
+   Removing a key restores exactly the colour beneath it and removing all keys turns the light off.
+
+   The model is of the code with fixes/C09-light-fade-cancel-and-color-below.patch applied; the
+   two _refuted theorems show that the code as found violates the property (stale fade task,
+   wrong fade start colour).  Satisfiability Examples are in Lemmas.v, named ex_... *)
 From Common Require Import Prelude.
 From C09 Require Import Model Lemmas.
 Open Scope Z_scope.
+
+(* the stack is kept strictly sorted by (priority, key), descending, by every operation of every
+   history: its first opaque entry is the highest-priority one *)
+Theorem stack_sorted_and_hw_invariant :
+  forall h l t0, 0 <= t0 -> Inv l t0 -> timed_ok t0 h -> Inv (lrun l h) (last_time t0 h).
+Proof. exact run_inv. Qed.
+Print Assumptions stack_sorted_and_hw_invariant.
+
+(* no fade running: the logical colour is the colour of the first (= highest (priority, key))
+   opaque entry, black if there is none *)
+Theorem logical_color_is_top :
+  forall st now, settled st now = true -> col st now = top_color st.
+Proof. exact logical_color_is_top_l. Qed.
+Print Assumptions logical_color_is_top.
+
+(* a running fade of the visible entry is componentwise between its start colour and its
+   destination (its own colour, or for a removal fade the colour beneath), and equals the
+   destination from the end of the fade on *)
+Theorem fade_between_endpoints :
+  forall e r now, t1 e <> 0 -> t0 e < t1 e ->
+    (now < t1 e -> between (start_of e) (col (e :: r) now) (dest_of e r now)) /\
+    (t1 e <= now -> col (e :: r) now = dest_of e r now).
+Proof. exact fade_between_endpoints_l. Qed.
+Print Assumptions fade_between_endpoints.
+
+(* with the fix, a fade that becomes the visible entry starts from the colour the light shows *)
+Theorem fade_starts_at_current_color :
+  forall top r p k now, below_fixed p k top = true ->
+    color_below (top :: r) p k now = col (top :: r) now.
+Proof. exact fade_starts_at_current_color_l. Qed.
+Print Assumptions fade_starts_at_current_color.
+
+(* the code as found (entry.priority <= priority and entry.key <= key) does not *)
+Theorem color_below_orig_refuted :
+  exists st p k now, sortedb st = true /\ forallb (below_fixed p k) st = true /\
+                     color_below_orig st p k now <> col st now.
+Proof. exact color_below_orig_refuted_l. Qed.
+Print Assumptions color_below_orig_refuted.
+
+(* adding a key and removing it again restores the stack, hence the colour at every later time *)
+Theorem remove_restores_below :
+  forall st c fade p k now, nokey k st = true ->
+    remove_key k (add_to_stack st c fade p k now) = st.
+Proof. intros; apply add_then_remove_l; assumption. Qed.
+Print Assumptions remove_restores_below.
+
+(* removing the top key without a fade leaves exactly the stack beneath it *)
+Theorem remove_top_instant :
+  forall l e r k now, stack l = e :: r -> key e = k -> nokey k r = true ->
+    stack (fst (do_remove l k 0 now)) = r.
+Proof. exact remove_top_instant_l. Qed.
+Print Assumptions remove_top_instant.
+
+(* removing it with a fade: once the remove_fade delay has fired, likewise *)
+Theorem remove_top_with_fade :
+  forall l e r k fade now now', stack l = e :: r -> key e = k -> c1 e <> None -> nokey k r = true ->
+    fade <> 0 -> stack (fst (do_fire (fst (do_remove l k fade now)) k now')) = r.
+Proof. exact remove_fade_then_fire_l. Qed.
+Print Assumptions remove_top_with_fade.
+
+(* clear_stack: the light is off and the hardware's target colour is off, whatever came before *)
+Theorem clear_turns_off :
+  forall l now now', 0 <= now ->
+    let l' := fst (do_clear l now) in
+    stack l' = [] /\ col (stack l') now' = off /\ hw_target l' = off.
+Proof. exact clear_turns_off_l. Qed.
+Print Assumptions clear_turns_off.
+
+(* for every history (times >= 0, non-decreasing; the delays are operations of the history): at
+   any time after the last operation at which no removal fade is left and no fade is running,
+   the target colour of the last set_fade sent to the drivers is the logical colour and its
+   target time is over — through all the shortcuts of color()/remove/_schedule_update *)
+Theorem hw_equals_logical_at_rest :
+  forall h now, timed_ok 0 h -> last_time 0 h <= now ->
+    let l := lrun linit h in
+    rest (stack l) now = true ->
+    hw_target l = col (stack l) now /\ hw_t1 l <= now.
+Proof. exact hw_equals_logical_at_rest_l. Qed.
+Print Assumptions hw_equals_logical_at_rest.
+
+(* the command stream is exactly the sequence of values of _last_fade_target *)
+Theorem command_sent_iff_target_replaced :
+  forall l now,
+    (snd (schedule_update l now) = [] /\ last (fst (schedule_update l now)) = last l) \/
+    (exists T, snd (schedule_update l now) = [T] /\ last (fst (schedule_update l now)) = Some T).
+Proof. exact schedule_update_sent. Qed.
+Print Assumptions command_sent_iff_target_replaced.
+
+(* software / direct fade channel with the fix: for every sequence of set_fade commands and task
+   wake-ups, whenever no fade task is pending the last brightness commanded is the target of the
+   last set_fade (while one is pending it is heading for that target) *)
+Theorem channel_idle_shows_target :
+  forall maxf interval evs, cinv (fold_left (cstep maxf interval) evs (None, None, None)).
+Proof. exact channel_idle_shows_target_l. Qed.
+Print Assumptions channel_idle_shows_target.
+
+(* and the task does end: a step at or after (target time - max fade) commands the target *)
+Theorem fade_task_finishes :
+  forall maxf interval now k, tt1 k - maxf <= now ->
+    task_step maxf interval now k = (None, (b1 k * SC, Z.max (tt1 k - now) 0)).
+Proof. exact task_finishes_l. Qed.
+Print Assumptions fade_task_finishes.
+
+(* the code as found: an instant colour during a software fade leaves the old task running; at
+   rest the hardware shows the old target (255) although the last command asked for 77 *)
+Theorem stale_fade_task_refuted :
+  exists evs, fold_left (cstep_orig 0 125) evs (None, None, None) = (None, Some (255 * SC), Some 77).
+Proof. exact stale_fade_task_refuted_l. Qed.
+Print Assumptions stale_fade_task_refuted.
